@@ -111,6 +111,8 @@ def run_shard(args):
                     diffs.append(None)
         t_impl = time.time() - t0
         extra_fail = mod.extra_checks(ctx) if hasattr(mod, 'extra_checks') else []
+        for e in extra_fail:
+            e.setdefault('shard', [shard, nshards])     # lets `--replay` re-run exactly this part of the campaign
         distinct.update(ctx.distinct)
         if shard == 0:
             samples = (samples + ctx.samples)[:4]
@@ -134,6 +136,23 @@ def replay(prop, path):
             return 2
         return mod.replay(r)
     ops = r.get('ops')
+    if not ops and r.get('shard') and hasattr(mod, 'extra_checks') and r.get('key'):
+        # a failure found by the module's independent oracle: re-run that shard of the oracle campaign (it is a pure
+        # function of property, tier, seed and shard) and look for the same failure
+        ok, out = common.lake_build(['driver'])
+        workdir = os.path.join(VERIF, '.work', f'{prop}-replay-{os.getpid()}')
+        os.makedirs(workdir, exist_ok=True)
+        try:
+            ctx = Ctx(prop, r.get('tier', 'quick'), r.get('seed', 0), r['shard'][0], r['shard'][1], workdir)
+            again = [e for e in mod.extra_checks(ctx) if e.get('key') == r['key']]
+        finally:
+            shutil.rmtree(workdir, ignore_errors=True)
+        print(f'replay {path}: re-ran the oracle campaign of shard {r["shard"]} (tier {r.get("tier")}, seed {r.get("seed")})')
+        for e in again[:3]:
+            print('FAILS AGAIN:', e.get('key'), json.dumps(e.get('diff'), default=str)[:1500])
+        if not again:
+            print('the recorded failure does not reproduce on this tree; recorded:', json.dumps(r.get('diff'), default=str)[:800])
+        return 1 if again else 0
     if not ops:
         print(f'replay {path}: kind={r.get("kind")} obligation={r.get("obligation")} (no concrete input)')
         print(json.dumps(r, indent=1)[:4000])
